@@ -200,8 +200,10 @@ class ModelFS:
                 raise UnicodeDecodeError(encoding or "x", b"\xff", 0, 1, "model")
             if name not in self.files:
                 raise FileNotFoundError(name)
-            f = io.StringIO(self.files[name])
-            return f
+            # like a real text-mode open(): a TextIOWrapper whose .name is the path (format detection looks at it)
+            raw = io.BytesIO(self.files[name].encode("utf-8"))
+            raw.name = name
+            return io.TextIOWrapper(raw, encoding="utf-8", newline="")
         self.files[name] = ""  # truncation on open('w')
         self.write_encoding[name] = encoding
         return _Writer(self, name)
